@@ -501,8 +501,9 @@ def gen_program(st, flavour, tier):
         # switch is looked at right before a component is processed.  Down-stream only: every valid order has the
         # toggler first, so the outcome is a function of the program.
         for _ in range(rk.choice([1, 1, 2])):
+            taken = set(j for nd in nodes for j, _ in nd.get("toggles") or [])     # one toggler per switch: two would race
             cands = [(i, j) for j in range(n) for i in sorted(closure(nodes, [j]) - set([j]))
-                     if nodes[i]["type"] != "rp" and nodes[j]["type"] != "rp"]
+                     if nodes[i]["type"] != "rp" and nodes[j]["type"] != "rp" and j not in taken]
             if cands:
                 i, j = cands[rk.randrange(len(cands))]
                 nodes[i].setdefault("toggles", []).append([j, (not nodes[j]["enabled"]) if rk.random() < 0.8 else nodes[j]["enabled"]])
@@ -516,6 +517,32 @@ def gen_program(st, flavour, tier):
             cfgs.append({"name": nm, "enabled": rk.random() < 0.5})
         case["enable_cfg"] = {"default_component_enabled": rk.random() < 0.7, "configs": cfgs}
     return case
+
+
+def rerun_candidates(case):
+    """Components that may be switched on between two evaluations of one broker.  Only fault-free programs (what a
+    second evaluation does with a component that failed in the first is nobody's stated property) without mid-run
+    switch flips; no rule may sit down-stream (a rule answers unmet requirements with a skip *response*, a value)."""
+    nodes = case["nodes"]
+    if case.get("sac") or case.get("graph_drop"):
+        return []
+    for nd in nodes:
+        if nd["out"] not in ("value", "none", "zero", "emptystr") or nd.get("toggles"):
+            return []
+        if nd["type"] == "parser" and any(e != "value" for e in nd.get("eouts", [])):
+            return []
+        if nd["type"] == "rule" and nd["out"] != "value":
+            return []
+    en = enabled_map(case)
+    ing = graph_nodes(case)
+    out = []
+    for i, nd in enumerate(nodes):
+        if nd["type"] == "rp" or not en[i] or i in case["seeded"] or i not in ing:
+            continue
+        down = [j for j in range(len(nodes)) if j != i and i in closure(nodes, [j])]
+        if down and not any(nodes[j]["type"] == "rule" for j in down):
+            out.append(i)
+    return out
 
 
 def fresh_brokers_ok(case):
@@ -537,6 +564,12 @@ def gen_driver(st, case, flavour, kinds=None):
     if k.endswith("_n") and not fresh_brokers_ok(case):
         k = k[:-2]
     d = {"kind": k}
+    if flavour == "C02" and rs.random() < 0.3:
+        late = rerun_candidates(case)
+        if late:
+            # the same broker evaluated twice (the on-demand style of the shell and of insights-cat / insights-inspect):
+            # first with a few components switched off, then again with them switched on
+            return {"kind": "rerun", "late_enable": sorted(rs.sample(late, min(len(late), rs.choice([1, 1, 2]))))}
     if k != "order" and not case.get("graph_drop") and rs.random() < 0.25:
         d["entry"] = rs.choice(["list", "single", "group"])        # dr.run([components]) / dr.run(component) / the group's table
     if not k.endswith("_n") and rs.random() < 0.1:
@@ -684,19 +717,24 @@ def timeout_tag(nd):
     return "Datasource spec %s.%s timed out after %s seconds!" % (MODNAME, nd["name"], nd.get("timeout") or 120)
 
 
-def model(case, fixed_f1=True, pool_thread=False):
-    """Fold over the program in index order.  Returns dict(val, calls, exc, missing)."""
+def model(case, fixed_f1=True, pool_thread=False, prior=None, disabled=()):
+    """Fold over the program in index order.  Returns dict(val, calls, exc, missing).
+    ``prior``: the result of an earlier evaluation on the SAME broker (what has a value is not evaluated again);
+    ``disabled``: components switched off for this evaluation on top of the program's own switches."""
     nodes = case["nodes"]
     ss = case["store_skips"]
     ing = graph_nodes(case)
     en = enabled_map(case)
+    for i in disabled:
+        en[i] = False
     dmap = dependents_map(nodes)
     seeded = set(case["seeded"])
     hostctx = case["hostctx"]
-    val = {}
+    val = dict(prior["val"]) if prior else {}
+    had = set(val)
     calls = {}
-    exc = []
-    missing = {}
+    exc = list(prior["exc"]) if prior else []
+    missing = dict(prior["missing"]) if prior else {}
 
     def rec(target, kind, tag):
         exc.append((nodes[target]["name"], kind, tag))
@@ -709,6 +747,8 @@ def model(case, fixed_f1=True, pool_thread=False):
         t = nd["type"]
         if i in seeded:
             val[i] = ("seed", name)
+            continue
+        if i in had:
             continue
         if i not in ing or not en[i]:
             continue
@@ -847,6 +887,8 @@ def model(case, fixed_f1=True, pool_thread=False):
                     rec(i, "skip", "")
         else:
             generic(oc, tag)
+    if prior:
+        calls = dict((i, list(prior["calls"].get(i, [])) + list(calls.get(i, []))) for i in set(prior["calls"]) | set(calls))
     return {"val": val, "calls": calls, "exc": sorted(exc), "missing": missing, "en": en}
 
 
@@ -1175,6 +1217,16 @@ def run_driver(world, driver, graph):
             order = linear_extension(graph, random.Random(driver["order_seed"]))
             world.forced_order = [cname(c) for c in order]
             dr.run_components(order, graph, b)
+            return [b], None, None
+        if kind == "rerun":
+            b = world.new_broker()
+            for i in driver["late_enable"]:
+                dr.set_enabled(world.objs[i], False)
+            dr.run(graph, b)
+            for i in driver["late_enable"]:
+                dr.set_enabled(world.objs[i], True)
+            world.fired("same_broker_evaluated_again")
+            dr.run(graph, b)
             return [b], None, None
         if kind == "incr":
             b = world.new_broker()
@@ -1782,7 +1834,16 @@ class EngineCheck(Check):
     def execute(self, case):
         driver = case["driver"]
         r = execute_once(case, driver)
-        m = model(case, pool_thread=driver["kind"] == "pool")
+        if driver["kind"] == "rerun":
+            m1 = model(case, disabled=driver["late_enable"])
+            m = model(case, prior=m1)
+            # a report of unmet requirements left over from the first evaluation is neither demanded nor forbidden once
+            # the component has been evaluated
+            done = set(case["nodes"][i]["name"] for i in m["val"])
+            r.sig["miss"] = dict((k, v) for k, v in r.sig["miss"].items() if not (k in done and k in r.sig["vals"]))
+            m["missing"] = dict((i, v) for i, v in m["missing"].items() if i not in m["val"])
+        else:
+            m = model(case, pool_thread=driver["kind"] == "pool")
         viols = self.oracles(case, driver, r, m)
         return self.result(case, [r], viols)
 
@@ -1869,7 +1930,9 @@ class C01(EngineCheck):
     rule = ("case = generated component program (<=12 quick / <=16 thorough nodes over 9 component types incl. registry points, "
             "required / at-least-one / optional edges, fault plan, pre-seeded subset, targets) x driver (dr.run with the "
             "engine's own seeded tie-break, run_components on a seeded linear extension, run_incremental, run_all, run_all on "
-            "SimPool with a seeded walk/PCT schedule); non-trivial = more than one component in the graph, or a fault fired, "
+            "SimPool with a seeded walk/PCT schedule; entry forms graph dict / list / single component / the default "
+            "group's own table; component objects that test False; 0.4% wide programs with 65-140 sub-graphs); "
+            "non-trivial = more than one component in the graph, or a fault fired, "
             "or a pool schedule with pre-emptions; distinct = distinct digest of (event log, final broker, forced order, "
             "switch list)")
 
@@ -1885,8 +1948,10 @@ class C02(EngineCheck):
     thorough = dict(runs=10000000, wall=1500)
     rule = ("case = generated program (all component types, groups sharing members, a dependency both required and optional, "
             "pre-seeded values, disabled components, apply_default_enabled/apply_configs with exact and prefix names) x "
-            "outcome per component x serial driver; oracle = reference model of firing / positional binding / missing "
-            "reports; non-trivial / distinct as for C01")
+            "outcome per component x serial driver; histories: a component body flips the enabled switch of a down-stream "
+            "component while the evaluation runs (15%), the same broker evaluated twice with components switched on in "
+            "between (fault-free programs), component objects that test False, the default group's own table as entry "
+            "form; oracle = reference model of firing / positional binding / missing reports; non-trivial / distinct as for C01")
 
     def oracles(self, case, driver, r, m):
         return oracle_c02(case, driver, r, m)
